@@ -100,6 +100,10 @@ var decisionTargets = []decisionTarget{
 	{"NTLMauthenticate", "cmd/rdpgw/web/ntlm.go", "NTLMAuthHandler", "authenticate"},
 	{"TokenInfo", "cmd/rdpgw/web/token.go", "", "TokenInfo"},
 	{"ntlmAuthenticate", "cmd/auth/ntlm/ntlm.go", "NTLMAuth", "Authenticate"},
+	{"ntlmGetContext", "cmd/auth/ntlm/ntlm.go", "NTLMAuth", "getContext"},
+	{"ntlmCtxAuthenticate", "cmd/auth/ntlm/ntlm.go", "ntlmContext", "Authenticate"},
+	{"ntlmCtxNegotiate", "cmd/auth/ntlm/ntlm.go", "ntlmContext", "negotiate"},
+	{"ntlmCtxAuthenticateMsg", "cmd/auth/ntlm/ntlm.go", "ntlmContext", "authenticate"},
 	{"kdcHandler", "cmd/rdpgw/kdcproxy/proxy.go", "KerberosProxy", "Handler"},
 	{"kdcForward", "cmd/rdpgw/kdcproxy/proxy.go", "KerberosProxy", "forward"},
 	{"rdpUnmarshal", "cmd/rdpgw/rdp/koanf/parsers/rdp/rdp.go", "RDP", "Unmarshal"},
